@@ -105,6 +105,17 @@ func (f *g2lFn) call(b *binds, e *ast.CallExpr) string {
 	if tf, ok := f.u.walkCalls[strings.Join(strings.Fields(show(e.Fun)), "")]; ok {
 		return f.walkCall(b, e, tf)
 	}
+	if fld, ok := f.u.onceCalls[strings.Join(strings.Fields(show(e.Fun)), "")]; ok {
+		return f.onceCall(b, e, fld)
+	}
+	if fld, ok := f.u.cacheCalls[strings.Join(strings.Fields(show(e.Fun)), "")]; ok {
+		return f.cacheCall(b, e, fld)
+	}
+	if src0 := strings.Join(strings.Fields(show(e.Fun)), ""); src0 == "atomic.LoadUint32" && len(e.Args) == 1 {
+		if ue, ok := e.Args[0].(*ast.UnaryExpr); ok && ue.Op == token.AND {
+			return f.expr(b, ue.X)
+		}
+	}
 	if f.u.limitedReaders && strings.Join(strings.Fields(show(e.Fun)), "") == "io.Copy" && len(e.Args) == 2 {
 		// io.Copy(w, lr) with lr an *io.LimitedReader: read what the limit allows (lr is updated), then write it to w
 		if id, ok := e.Args[1].(*ast.Ident); ok && f.leanType(f.typeOf(id), e) == "LimitedReader" {
@@ -133,8 +144,24 @@ func (f *g2lFn) call(b *binds, e *ast.CallExpr) string {
 				args = append([]string{f.expr(b, sel.X)}, args...)
 			}
 		}
+		monadic := false
+		if strings.HasSuffix(wfn, ":M") {
+			// the world function is itself a computation in M (a regenerated function standing behind an interface)
+			wfn = strings.TrimSuffix(wfn, ":M")
+			monadic = true
+		}
+		f.useAbsIn(wfn)
+		if containsWord(wfn, "fuel") {
+			f.fuel = true
+		}
+		f.pure = false
 		r := f.fresh("wr")
-		b.add(strings.TrimSpace(fmt.Sprintf("let (%s, world) := %s %s", r, wfn, strings.Join(append(args, "world"), " "))))
+		if monadic {
+			t := f.bindM(b, strings.TrimSpace(fmt.Sprintf("%s %s", wfn, strings.Join(append(args, "world"), " "))))
+			b.add(fmt.Sprintf("let (%s, world) := %s", r, t))
+		} else {
+			b.add(strings.TrimSpace(fmt.Sprintf("let (%s, world) := %s %s", r, wfn, strings.Join(append(args, "world"), " "))))
+		}
 		b.noteRebound("world")
 		return r
 	}
@@ -179,6 +206,10 @@ func (f *g2lFn) call(b *binds, e *ast.CallExpr) string {
 				args = append([]string{f.expr(b, sel.X)}, args...)
 			}
 		}
+		if containsWord(s.lean, "fuel") {
+			f.fuel = true
+		}
+		f.useAbsIn(s.lean)
 		t := "(" + s.lean + " " + strings.Join(args, " ") + ")"
 		if s.fx {
 			return f.bindM(b, t)
@@ -344,6 +375,9 @@ func (f *g2lFn) call(b *binds, e *ast.CallExpr) string {
 				}
 				key := f.u.pkgDir + "." + n.Obj().Name() + "." + sel.Sel.Name
 				if callee, ok := g2l.fns[key]; ok {
+					if f.isWorldObj(rt) {
+						return f.callFn(b, callee, f.args(b, e), e)
+					}
 					recv := f.expr(b, sel.X)
 					return f.callFn(b, callee, append([]string{recv}, f.args(b, e)...), e)
 				}
@@ -363,6 +397,7 @@ func (f *g2lFn) call(b *binds, e *ast.CallExpr) string {
 			f.fuel = true
 			a = append([]string{"fuel"}, a...)
 		}
+		f.useAbsIn(ext)
 		t := "(" + ext + " " + strings.Join(a, " ") + ")"
 		if f.u.externFx[pkg+"."+name] {
 			return f.bindM(b, t)
@@ -397,7 +432,24 @@ func (f *g2lFn) call(b *binds, e *ast.CallExpr) string {
 	return ""
 }
 
+// useAbsIn: every abstract parameter of the unit that the Lean term mentions (E in `E.readRemote`, `parseTreeX E`) is used
+func (f *g2lFn) useAbsIn(term string) {
+	for name := range f.u.absSigs {
+		// `E`, `E.readRemote`, `parseTreeX E`: the name as an identifier or as the root of a field path
+		for _, tok := range strings.FieldsFunc(term, func(r rune) bool {
+			return !(r == '_' || r >= '0' && r <= '9' || r >= 'a' && r <= 'z' || r >= 'A' && r <= 'Z' || r > 127)
+		}) {
+			if tok == name {
+				f.useAbs(name)
+			}
+		}
+	}
+}
+
 func (f *g2lFn) useAbs(p string) {
+	if i := strings.IndexByte(p, '.'); i > 0 {
+		p = p[:i]
+	}
 	for _, x := range f.absUsed {
 		if x == p {
 			return
@@ -777,12 +829,39 @@ func (f *g2lFn) stmts(list []ast.Stmt, k kont) []string {
 		return rest()
 	case *ast.LabeledStmt:
 		return f.stmts(append([]ast.Stmt{s.Stmt}, list[1:]...), k)
+	case *ast.GoStmt:
+		// `go func(params){…}(args)`: the goroutine is run to completion at the point where it is started (the
+		// schedule is not modelled here; DESIGN §6 C14 treats the interleavings at machine level)
+		lit, ok := s.Call.Fun.(*ast.FuncLit)
+		if !ok || containsReturnValue(lit.Body) {
+			f.bad(s, "go statement (only `go func(…){…}(…)` without result-returning statements)")
+		}
+		var b binds
+		lines := []string{}
+		argi := 0
+		for _, fld := range lit.Type.Params.List {
+			for _, n := range fld.Names {
+				if argi >= len(s.Call.Args) {
+					f.bad(s, "go statement arity")
+				}
+				v := f.expr(&b, s.Call.Args[argi])
+				argi++
+				lines = append(lines, b.lines...)
+				b.lines = nil
+				lines = append(lines, fmt.Sprintf("let %s := %s", f.name(n), v))
+			}
+		}
+		return append(lines, f.stmts(lit.Body.List, rest)...)
 	case *ast.DeferStmt:
 		if sel, ok := s.Call.Fun.(*ast.SelectorExpr); ok && f.u.ignoreCalls[sel.Sel.Name] {
 			return rest()
 		}
+		if fl, ok := s.Call.Fun.(*ast.FuncLit); ok && f.u.ignoreRecover && callsRecover(fl.Body) {
+			// defer func() { if e := recover(); e != nil { … } }(): a panic stays a panic (Err.panic) here
+			return rest()
+		}
 		fl, ok := s.Call.Fun.(*ast.FuncLit)
-		if !ok || len(s.Call.Args) != 0 || f.deferBody != nil || !f.named || f.inLoop != nil || containsReturn(fl.Body) {
+		if !ok || len(s.Call.Args) != 0 || f.deferBody != nil || !(f.named || len(f.results) == 0) || f.inLoop != nil || containsReturn(fl.Body) {
 			f.bad(s, "defer (only a leading `defer func() {…}()` over the named results is supported)")
 		}
 		f.deferBody = fl.Body.List
@@ -854,6 +933,11 @@ func (f *g2lFn) assignedOuter(nodes []ast.Node, before token.Pos) []*types.Var {
 			case *ast.ParenExpr:
 				e = x.X
 				continue
+			case *ast.UnaryExpr:
+				if x.Op == token.AND {
+					e = x.X
+					continue
+				}
 			}
 			break
 		}
@@ -866,6 +950,14 @@ func (f *g2lFn) assignedOuter(nodes []ast.Node, before token.Pos) []*types.Var {
 			o = f.p.info.Defs[id]
 		}
 		v, ok := o.(*types.Var)
+		if ok && f.isWorldObj(v.Type()) {
+			// an assignment to a field of the world object changes the world
+			if f.worldVar != nil && f.worldVar.Pos() < before && !seen[f.worldVar] {
+				seen[f.worldVar] = true
+				out = append(out, f.worldVar)
+			}
+			return
+		}
 		if !ok || v.Pos() >= before || seen[v] {
 			return
 		}
@@ -882,7 +974,7 @@ func (f *g2lFn) assignedOuter(nodes []ast.Node, before token.Pos) []*types.Var {
 		ast.Inspect(n, func(n ast.Node) bool {
 			switch n := n.(type) {
 			case *ast.FuncLit:
-				return false
+				return f.isGoLit(n)
 			case *ast.AssignStmt:
 				for _, l := range n.Lhs {
 					add(l)
@@ -1128,13 +1220,33 @@ func (f *g2lFn) assignOne(lines *[]string, lhs ast.Expr, term string, lt types.T
 		// x.a.b.c = v  ==>  let x := { x with a := { x.a with b := { x.a.b with c := v } } }
 		chain := []string{leanIdent(l.Sel.Name)}
 		cur := l.X
+		worldBase := false
 		for {
+			if f.isWorldObj(f.typeOf(cur)) {
+				worldBase = true
+				break
+			}
 			if se, ok := cur.(*ast.SelectorExpr); ok {
 				chain = append([]string{leanIdent(se.Sel.Name)}, chain...)
 				cur = se.X
 				continue
 			}
 			break
+		}
+		if worldBase {
+			if f.worldVar == nil {
+				f.bad(lhs, "assignment to a field of a world object in a function that does not thread the world")
+			}
+			val := term
+			for i := len(chain) - 1; i >= 0; i-- {
+				path := "(world)"
+				for _, c := range chain[:i] {
+					path = "(" + path + "." + c + ")"
+				}
+				val = fmt.Sprintf("{ %s with %s := %s }", path, chain[i], val)
+			}
+			*lines = append(*lines, "let world := "+val)
+			return
 		}
 		if id0, ok := cur.(*ast.Ident); ok {
 			// zerr.path = dir on an error object obtained by a type assertion: error values carry only their kind here
@@ -1165,7 +1277,12 @@ func (f *g2lFn) assignOne(lines *[]string, lhs ast.Expr, term string, lt types.T
 		if !ok {
 			// general case (x.list[i] = v): the updated list is assigned to x.list
 			if _, isMap := f.typeOf(l.X).Underlying().(*types.Map); isMap {
-				f.bad(lhs, "nested map assignment")
+				var b binds
+				outer := f.expr(&b, l.X)
+				i := f.expr(&b, l.Index)
+				*lines = append(*lines, b.lines...)
+				f.assignOne(lines, l.X, fmt.Sprintf("(mapSet %s %s %s)", outer, i, term), f.typeOf(l.X))
+				return
 			}
 			var b binds
 			outer := f.expr(&b, l.X)
@@ -1210,6 +1327,10 @@ func (f *g2lFn) simple(s ast.Stmt) []string {
 	lines := []string{}
 	switch s := s.(type) {
 	case *ast.AssignStmt:
+		if len(s.Lhs) == 1 && len(s.Rhs) == 1 && f.isWorldObj(f.typeOf(s.Rhs[0])) {
+			// c := r.c — another name for the world object; c.tileReader.c = c — a link between world objects
+			return lines
+		}
 		if s.Tok == token.DEFINE && len(s.Lhs) == 1 && len(s.Rhs) == 1 {
 			if lit, ok := s.Rhs[0].(*ast.FuncLit); ok {
 				if f.u.lambdaClosures && len(lit.Body.List) == 1 {
@@ -1308,6 +1429,9 @@ func (f *g2lFn) simple(s ast.Stmt) []string {
 			if ok && gd.Tok == token.CONST {
 				return lines // constants are folded at their uses
 			}
+			if ok && gd.Tok == token.TYPE {
+				return lines // a local type: used through the configured localTypes
+			}
 			f.bad(s, "declaration")
 		}
 		for _, sp := range gd.Specs {
@@ -1393,6 +1517,8 @@ func (f *g2lFn) sprintf(b *binds, e *ast.CallExpr) string {
 			parts = append(parts, x)
 		case verb == 'x' && isBytesLike(at) && width == 0:
 			parts = append(parts, "(hexBytes "+x+")")
+		case (verb == 's' || verb == 'v') && width == 0 && isErrorType(at):
+			parts = append(parts, "(errBytes "+x+")")
 		case (verb == 's' || verb == 'v') && width == 0 && f.absStringer(at) != "":
 			parts = append(parts, "("+f.absStringer(at)+" "+x+")")
 		default:
@@ -1408,6 +1534,26 @@ func (f *g2lFn) sprintf(b *binds, e *ast.CallExpr) string {
 
 // exprStmtCall: calls used as statements: copy(dst, src) and interface methods configured as effects
 func (f *g2lFn) exprStmtCall(c *ast.CallExpr) ([]string, bool) {
+	if src0 := strings.Join(strings.Fields(show(c.Fun)), ""); src0 == "atomic.StoreUint32" && len(c.Args) == 2 {
+		if ue, ok := c.Args[0].(*ast.UnaryExpr); ok && ue.Op == token.AND {
+			var b binds
+			v := f.expr(&b, c.Args[1])
+			lines := b.lines
+			f.assignOne(&lines, ue.X, v, f.typeOf(ue.X))
+			return lines, true
+		}
+	}
+	if src0 := strings.Join(strings.Fields(show(c.Fun)), ""); src0 == "fmt.Fprintf" && len(c.Args) >= 2 {
+		// fmt.Fprintf(&buf, format, args…) into a local bytes.Buffer
+		if ue, ok := c.Args[0].(*ast.UnaryExpr); ok && ue.Op == token.AND {
+			if id, ok := ue.X.(*ast.Ident); ok && isBytesBuffer(f.typeOf(id)) {
+				var b binds
+				c2 := &ast.CallExpr{Fun: c.Fun, Args: c.Args[1:], Lparen: c.Lparen, Rparen: c.Rparen}
+				txt := f.sprintf(&b, c2)
+				return append(b.lines, fmt.Sprintf("let %s := %s ++ %s", f.name(id), f.name(id), txt)), true
+			}
+		}
+	}
 	var b binds
 	if id, ok := c.Fun.(*ast.Ident); ok && id.Name == "copy" && len(c.Args) == 2 {
 		se, ok := c.Args[0].(*ast.SliceExpr)
@@ -1799,4 +1945,122 @@ func (f *g2lFn) worldCall(src string) (string, bool) {
 	}
 	w, ok := f.u.worldCalls[src]
 	return w, ok
+}
+
+// isGoLit: the function literal is the body of a `go func(){…}()` statement of this function (translated inline)
+func (f *g2lFn) isGoLit(lit *ast.FuncLit) bool {
+	found := false
+	ast.Inspect(f.fd.Body, func(n ast.Node) bool {
+		if g, ok := n.(*ast.GoStmt); ok && g.Call.Fun == ast.Expr(lit) {
+			found = true
+		}
+		return !found
+	})
+	return found
+}
+
+func callsRecover(n ast.Node) bool {
+	found := false
+	ast.Inspect(n, func(n ast.Node) bool {
+		if c, ok := n.(*ast.CallExpr); ok {
+			if id, ok := c.Fun.(*ast.Ident); ok && id.Name == "recover" {
+				found = true
+			}
+		}
+		return !found
+	})
+	return found
+}
+
+// containsReturnValue: a return statement directly in the body (not inside a nested function literal)
+func containsReturnValue(n ast.Node) bool {
+	found := false
+	ast.Inspect(n, func(n ast.Node) bool {
+		if _, ok := n.(*ast.FuncLit); ok {
+			return false
+		}
+		if _, ok := n.(*ast.ReturnStmt); ok {
+			found = true
+		}
+		return !found
+	})
+	return found
+}
+
+// onceCall: c.initOnce.Do(c.initWork) — run the method unless the world's flag says it already ran, and set the flag
+func (f *g2lFn) onceCall(b *binds, e *ast.CallExpr, field string) string {
+	if f.worldVar == nil || len(e.Args) != 1 {
+		f.bad(e, "sync.Once.Do outside a world function")
+	}
+	sel, ok := e.Args[0].(*ast.SelectorExpr)
+	if !ok {
+		f.bad(e, "sync.Once.Do needs a method value")
+	}
+	rt := f.typeOf(sel.X)
+	if pt, ok := rt.(*types.Pointer); ok {
+		rt = pt.Elem()
+	}
+	n, ok := rt.(*types.Named)
+	if !ok {
+		f.bad(e, "sync.Once.Do needs a method value of a package type")
+	}
+	callee, ok := g2l.fns[f.u.pkgDir+"."+n.Obj().Name()+"."+sel.Sel.Name]
+	if !ok {
+		f.bad(e, "sync.Once.Do: %s is not translated", sel.Sel.Name)
+	}
+	var ib binds
+	f.pure = false
+	_ = f.callFn(&ib, callee, nil, e)
+	inner := append([]string{fmt.Sprintf("let world := { (world) with %s := true }", field)}, ib.lines...)
+	inner = append(inner, "pure world")
+	b.add(fmt.Sprintf("let world ← (if ((world).%s) then (pure world) else %s : M %s)", field, f.paren(inner), f.worldType))
+	b.noteRebound("world")
+	return "()"
+}
+
+// cacheCall: c.record.Do(key, func() interface{} {…}) — the memo table is an association list in the world: a hit returns
+// the stored value, a miss runs the (hoisted) closure and stores its result under the key
+func (f *g2lFn) cacheCall(b *binds, e *ast.CallExpr, field string) string {
+	if f.worldVar == nil || len(e.Args) != 2 {
+		f.bad(e, "parCache.Do outside a world function")
+	}
+	lit, ok := e.Args[1].(*ast.FuncLit)
+	if !ok {
+		f.bad(e, "parCache.Do needs a function literal")
+	}
+	key := f.expr(b, e.Args[0])
+	k := f.fresh("key")
+	b.add(fmt.Sprintf("let %s := %s", k, key))
+	f.nloop++
+	obj := types.NewVar(lit.Pos(), f.p.pkg, fmt.Sprintf("cacheFn%d", f.nloop), types.Typ[types.Invalid])
+	cl := f.defineClosureAs(fmt.Sprintf("cacheFn%d", f.nloop), obj, lit)
+	hasWorld := false
+	for _, m := range cl.modified {
+		if m == "world" {
+			hasWorld = true
+		}
+	}
+	mods := append([]string{}, cl.modified...)
+	if !hasWorld {
+		mods = append(mods, "world")
+	}
+	callArgs := append(append([]string{}, cl.captured...), cl.modified...)
+	call := "(" + cl.lean + " \x00ABS\x00fuel " + strings.Join(callArgs, " ") + ")"
+	v := f.fresh("cv")
+	any := f.u.anyType
+	miss := []string{}
+	if len(cl.modified) > 0 {
+		miss = append(miss, fmt.Sprintf("let (%s, %s) ← %s", v, tuple(cl.modified), call))
+	} else {
+		miss = append(miss, fmt.Sprintf("let %s ← %s", v, call))
+	}
+	miss = append(miss, fmt.Sprintf("let world := { (world) with %s := mapSet ((world).%s) %s %s }", field, field, k, v))
+	miss = append(miss, fmt.Sprintf("pure (%s, %s)", v, tuple(mods)))
+	r := f.fresh("cr")
+	b.add(fmt.Sprintf("let (%s, %s) ← (match mapGet ((world).%s) %s (default : %s) with\n  | (hit, true) => pure (hit, %s)\n  | (_, false) => %s)", r, tuple(mods), field, k, any, tuple(mods), f.paren(miss)))
+	for _, m := range mods {
+		b.noteRebound(m)
+	}
+	f.pure, f.fuel = false, true
+	return r
 }
